@@ -62,11 +62,16 @@ fn main() {
                 root_dispersion: 0.0005.into(),
                 last_update_interval: 16.0.into(),
             };
-            let reply = Reply { status: Status::Success, cmd: 33, sequence: req.sequence, body: ReplyBody::Tracking(t) };
+            // "badreply": a well-formed reply that is not tracking data (status only): chronyd is up but of no use
+            let reply = if mode == "badreply" {
+                Reply { status: Status::Failed, cmd: 33, sequence: req.sequence, body: ReplyBody::Null }
+            } else {
+                Reply { status: Status::Success, cmd: 33, sequence: req.sequence, body: ReplyBody::Tracking(t) }
+            };
             let mut out = BytesMut::with_capacity(reply.length());
             reply.serialize(&mut out);
             if let Some(p) = from.as_pathname() {
-                if sock.send_to(&out, p).is_ok() {
+                if sock.send_to(&out, p).is_ok() && mode != "badreply" {
                     emit(format!("{{\"ev\":\"answered\",\"mode\":\"{mode}\",\"t_ms\":{}}}", t0.elapsed().as_millis()));
                 }
             }
